@@ -1,12 +1,37 @@
 #!/usr/bin/env python3
-"""Markdown table of the seeded changes kept under /verif/seeded (for DESIGN.md section 10.4)."""
-import json, pathlib
-rows = []
-for d in sorted(pathlib.Path("/verif/seeded").iterdir()):
-    m = json.loads((d / "meta.json").read_text())
-    det = ", ".join(f"{c} (exit {r['exit']}, {r['violations']} VIOLATION, {r['reproduced']} replayed)" for c, r in m.get("checks", {}).items())
-    first = next((r["first_refuted"] for r in m.get("checks", {}).values() if r.get("first_refuted")), "")
-    first = first.replace("refuted obligation: ", "").split(" [")[0][:110]
-    rows.append(f"| {m.get('seed_id', d.name)} | {m.get('summary', '')[:150]} | {m.get('needs_to_manifest', '')[:130]} | {det} | `{first}` |")
-print("| seed | change | needs to manifest | checks | first failed obligation |\n|---|---|---|---|---|")
-print("\n".join(rows))
+"""Markdown table of the seeded changes kept under /verif/seeded.
+
+  seed_table.py            print the table
+  seed_table.py --design   rewrite the block between the seeded-table markers in /verif/DESIGN.md (section 10.4)"""
+import json
+import pathlib
+import re
+import sys
+
+ROOT = pathlib.Path(__file__).resolve().parents[1]
+
+
+def table():
+    rows = []
+    for d in sorted((ROOT / "seeded").iterdir()):
+        m = json.loads((d / "meta.json").read_text())
+        det = ", ".join(f"{c}: exit {r['exit']}, {r['violations']} violation(s), {r['reproduced']} replayed on the real code" for c, r in m.get("checks", {}).items())
+        first = next((r["first_refuted"] for r in m.get("checks", {}).values() if r.get("first_refuted")), "")
+        first = first.replace("refuted obligation: ", "").split(" [")[0][:120]
+        summ = re.sub(r"\s+", " ", m.get("summary", "")).replace("|", "/")[:170]
+        rows.append(f"| {m.get('seed_id', d.name)} | {summ} | {det} | `{first}` |")
+    return "| seed | change (sub-agent's own summary, truncated) | check result | first failed obligation |\n|---|---|---|---|\n" + "\n".join(rows)
+
+
+if __name__ == "__main__":
+    t = table()
+    if "--design" in sys.argv:
+        p = ROOT / "DESIGN.md"
+        s = p.read_text()
+        b, e = "<!-- seeded-table:begin -->", "<!-- seeded-table:end -->"
+        assert b in s and e in s, "markers missing in DESIGN.md"
+        s = s[:s.index(b) + len(b)] + "\n" + t + "\n" + s[s.index(e):]
+        p.write_text(s)
+        print("DESIGN.md table rewritten:", t.count("\n") - 1, "rows")
+    else:
+        print(t)
